@@ -13,6 +13,14 @@ SEQ = {"tuple", "nom_tuple", "pair", "preceded", "terminated", "delimited", "sep
 CONSUMING_METHODS = re.compile(r"^consume_\w+$")
 
 
+def as_match(n):
+    """`if let PAT = E { A } else { B }` seen as `match E { PAT => A, _ => B }` (the two are interchangeable for a maintainer)"""
+    if is_node(n) and n[0] == "if" and is_node(n[1]) and n[1][0] == "letc":
+        els = n[3] if n[3] is not None else ["block", []]
+        return ["match", n[1][2], [[n[1][1], None, ["block", n[2]], 0], [["pwild"], None, els, 0]]]
+    return n
+
+
 class Nullability:
     def __init__(self, items):
         self.fns = {}
@@ -20,6 +28,7 @@ class Nullability:
             if it["k"] == "fn":
                 self.fns.setdefault(it["name"], it)
         self.cons = set()     # functions proven consuming
+        self.fn_inits = None  # single-assignment locals of the function that encloses the loop under analysis (set by the caller)
         self.why = {}
         self.fix()
 
@@ -131,13 +140,28 @@ class Nullability:
         single argument mentions an input variable"""
         out = []
         for c in find(node, "call"):
-            if len(c[2]) >= 1 and re.search(r"\binput\b|\bi\b|next_input|new_input|remaining", render(c[2][0])):
-                f = c[1]
-                if is_node(f) and f[0] == "call":
-                    out.append(f)
-                elif is_node(f) and f[0] == "path" and f[1].split("::")[-1] in self.fns:
-                    out.append(f)
+            if self.is_application(c):
+                out.append(c[1])
         return out
+
+    def is_parser_fn(self, name):
+        """a crate function with the signature of a grammar parser: fn(ParseString, ..) -> ParseResult<_>"""
+        it = self.fns.get(name)
+        if not it:
+            return False
+        ins = it["sig"].get("inputs") or []
+        first = ins[0][1] if ins and isinstance(ins[0], list) and len(ins[0]) == 2 else ""
+        return str(first).replace(" ", "").startswith("ParseString") and "ParseResult" in (it["sig"].get("ret") or "")
+
+    def is_application(self, c):
+        """`c` (a call node) applies a parser to an input: `COMBINATOR(..)(x)` (a curried call with one argument) or `p(x, ..)` with p a
+        parser function of the crate.  Decided by the callee, not by what the argument is called."""
+        if not (is_node(c) and c[0] == "call" and len(c[2]) >= 1):
+            return False
+        f = c[1]
+        if is_node(f) and f[0] == "call":
+            return len(c[2]) == 1 and not (path_of(f[1]) or "").endswith("Box::new")
+        return is_node(f) and f[0] == "path" and self.is_parser_fn(f[1].split("::")[-1])
 
     def stmt_consuming(self, st, env):
         """does every normal continuation after this top-level statement imply a consuming parser succeeded?"""
@@ -166,25 +190,69 @@ class Nullability:
                 if cl == "C":
                     return render(f)[:60]
         # match P(input) { Ok((i, x)) => (i, x), Err(e) => return Err(..) }  (diverging error arms)
-        if e[0] == "match" and is_node(e[1]) and e[1][0] == "call":
-            c = e[1]
-            f = c[1]
-            if is_node(f) and self.classify(f, env) == "C":
-                ok = True
-                for arm in e[2]:
-                    p = arm[0]
-                    ptxt = render(arm[2])
-                    if p[0] == "pts" and p[1] == "Ok":
-                        continue
-                    if not re.search(r"return|Err\(|panic|unreachable", ptxt):
-                        ok = False
-                if ok:
-                    return render(f)[:60]
+        w = self._match_consuming(e, env)
+        if w:
+            return w
         # consuming method on the input itself
         for mc in find(init, "mcall"):
             if CONSUMING_METHODS.match(mc[2]) and init[0] == "try":
                 return "." + mc[2]
         return None
+
+    def _match_consuming(self, e, env, depth=0):
+        """`match P(x) { Ok(..) => .., other arms }` with P consuming, where every other arm either yields nothing to the continuation
+        (diverges / evaluates to Err) or is again such a match (`_ => match Q(x) { Ok(..) => .., Err(e) => return Err(e) }`): whatever
+        continues after it, a consuming parser has succeeded.  An arm that recovers and yields an input (e.g. through a skip-ahead
+        parser that may consume nothing) does not qualify."""
+        while is_node(e) and e[0] in ("block", "unsafe") and len(e[1]) == 1 and e[1][0][0] == "expr":
+            e = e[1][0][1]
+        if not is_node(e) or depth > 12:
+            return None
+        e = as_match(e)
+        if depth > 0 and e[0] in ("block", "unsafe"):
+            # an arm `{ let (i, x) = P(i)?; Ok((i, ..)) }`: a consuming statement on the spine of the arm's block
+            for st in e[1]:
+                w = self.stmt_consuming(st, env)
+                if w:
+                    return w
+            return None
+        if e[0] == "match" and is_node(e[1]) and e[1][0] == "call":
+            f = e[1][1]
+            if is_node(f) and self.classify(f, env) == "C":
+                for arm in e[2]:
+                    p = arm[0]
+                    if p[0] == "pts" and p[1] == "Ok":
+                        continue
+                    if not (self._arm_fails(arm[2]) or self._match_consuming(arm[2], env, depth + 1)):
+                        return None
+                return render(f)[:60]
+        if depth > 0 and e[0] == "call" and self.is_application(e) and self.classify(e[1], env) == "C":
+            return render(e[1])[:60]
+        if depth > 0 and e[0] == "try" and is_node(e[1]) and e[1][0] == "call" and self.is_application(e[1]) and self.classify(e[1][1], env) == "C":
+            return render(e[1][1])[:60]
+        return None
+
+    def _arm_fails(self, e):
+        """the arm never yields a value to the continuation: it diverges (return / break / continue / panic) or its value is `Err(..)`"""
+        from lib import guards as G
+        while is_node(e) and e[0] in ("block", "unsafe") and e[1]:
+            if G.diverges(e[1], panics=True):
+                return True
+            last = e[1][-1]
+            if last[0] != "expr" or (len(last) > 2 and last[2]):
+                return False
+            e = last[1]
+        if not is_node(e):
+            return False
+        if G.diverges([["expr", e, False]], panics=True):
+            return True
+        if e[0] == "call" and (path_of(e[1]) or "").split("::")[-1] == "Err":
+            return True
+        if e[0] == "match":
+            return all(self._arm_fails(a[2]) for a in e[2])
+        if e[0] == "if" and e[3] is not None:
+            return self._arm_fails(["block", e[2]]) and self._arm_fails(e[3])
+        return False
 
     def guarded_by_consume(self, body):
         """every `Ok(..)` the body can return sits in the success branch of `if let Some(_) = input.consume_*()` /
@@ -269,9 +337,13 @@ class Nullability:
                     return ("counter", "%s += 1" % path_of(st[1][2]))
             # while P(input.clone()).is_err() { consuming spine }
         # (a) explicit progress comparison between two cursors / lengths of different inputs
+        from lib.locals import local_inits, through_locals
+        inits = dict(self.fn_inits or {})
+        inits.update(local_inits(body))
         for b in find(body, "bin"):
             if b[1] in ("==", "!=", "<=", ">=", "<", ">"):
-                l, r = render(b[2]), render(b[3])
+                # either side may be a named snapshot (`let before = rest.cursor; .. if next.cursor <= before`)
+                l, r = render(through_locals(b[2], inits)), render(through_locals(b[3], inits))
                 if re.search(r"\.cursor$|\.len\(\)$", l) and re.search(r"\.cursor$|\.len\(\)$", r) and l.split(".")[0] != r.split(".")[0]:
                     return ("progress-comparison", "%s %s %s" % (l, b[1], r))
         # (b) a consuming parser on the spine of the loop body
@@ -285,15 +357,40 @@ class Nullability:
                     env[st[1][1]] = c
         # (c) every statement that rebinds the loop input takes it from a consuming parser's Ok result
         rebinds = []
-        for n in walk(body):
+        nodes = list(walk(body))
+        if kind == "while" and is_node(loop[1]) and loop[1][0] == "letc":
+            # `while let Ok((rest, x)) = p(cur.clone()) { cur = rest; }` == loop { match p(..) { Ok(..) => {..}, _ => break } }
+            nodes.append(["match", loop[1][2], [[loop[1][1], None, ["block", body], 0], [["pwild"], None, ["break"], 0]]])
+        for n in nodes:
+            n = as_match(n)
             if n[0] == "match" and is_node(n[1]) and n[1][0] == "call":
                 f = n[1][1]
                 for arm in n[2]:
                     if arm[0][0] == "pts" and arm[0][1] == "Ok":
-                        assigns = [a for a in find(arm[2], "assign") if re.search(r"input", render(a[1]))]
+                        # the Ok arm stores the rest of the input back into the variable the parser was applied to (`p(x.clone())` ..
+                        # `x = rest`): found by that data flow, whatever the variable is called
+                        fed = {x[1] for a in n[1][2] for x in find(a, "path")}
+                        assigns = [a for a in find(arm[2], "assign") if path_of(a[1]) in fed]
                         if assigns:
                             rebinds.append((render(f)[:50], self.classify(f, env) if is_node(f) else "?"))
-        lets = [st for st in body if st[0] == "let" and st[2] is not None and re.search(r"input", render_stmt(st)[:60])]
+        # the same rebinding written on the spine: `let (rest, x) = match p(cur.clone()) { Ok(v) => v, .. };` / `= p(cur.clone())?;` followed
+        # by `cur = rest` (the loop variable is fed to p and then overwritten with what p left)
+        seen_r = {r for r, _ in rebinds}
+        for st in find(body, "let"):
+            if len(st) < 3 or st[2] is None or not is_node(st[1]):
+                continue
+            bound = [q[1] for q in find(st[1], "pident")]
+            if not bound:
+                continue
+            apps = [c for c in find(st[2], "call") if self.is_application(c)]
+            for c in apps:
+                fed = {x[1] for a in c[2] for x in find(a, "path")}
+                for a in find(body, "assign"):
+                    if path_of(a[1]) in fed and path_of(a[2]) in bound and path_of(a[1]) not in bound:
+                        key = render(c[1])[:50]
+                        if key not in seen_r:
+                            seen_r.add(key)
+                            rebinds.append((key, self.classify(c[1], env) if is_node(c[1]) else "?"))
         if rebinds and all(c == "C" for _, c in rebinds):
             # plain `let (input, _) = p(input)?` rebinding on the spine with nullable p is fine: it never loops without a C rebind
             return ("consuming-rebinds", ", ".join(r for r, _ in rebinds))
@@ -351,7 +448,9 @@ class Nullability:
             init = st[2] if st[0] == "let" else (st[1] if st[0] == "expr" else None)
             if init is None or not is_node(init):
                 continue
-            if init[0] == "try" and is_node(init[1]) and init[1][0] == "call" and is_node(init[1][1]) and init[1][1][0] in ("call", "path") and re.search(r"input", render(init[1][2][0]) if init[1][2] else ""):
+            if init[0] == "try" and is_node(init[1]) and init[1][0] == "call" and is_node(init[1][1]) and init[1][1][0] in ("call", "path") and init[1][2] and (
+                    self.is_application(init[1]) or (init[1][1][0] == "path" and "::" not in init[1][1][1] and init[1][1][1] not in self.fns and len(init[1][2]) == 1)):
+                # (second alternative: a callable that is a local / parameter, applied to one argument and `?`-propagated: a parser handed in)
                 f = init[1][1]
                 if f[0] == "path" and f[1].split("::")[-1] not in self.fns:
                     return False
